@@ -1,11 +1,14 @@
-import DFV.Lemmas.C12Obj
+import DFV.Lemmas.C12Comp
 /-!
 # C12 — quarter-turn rotations move values, vectors, validity and geometry together
 
 Group laws of the exact quarter turns used by `Region/Mesh/Field.rotate90`, the corner
 map, rotation of the mapped vector components, and refusal of unmapped vector fields —
-for all integers `k` (negative included), all axis pairs, all dimensions.
-(In-place == copy for rotations is `DFV.C13.inplace_eq_copy`.)
+for all integers `k` (negative included), all axis pairs, all dimensions; lifted to the model's
+regions, meshes (subregions and the `bc` string included) and fields: `k` vs `k mod 4`, composition
+of turns with acceptance of the follow-up calls, inverse and four turns, and how the periodic
+directions turn with the axes (or, for multi-character axis names, do not: finding D57).
+(In-place == copy for rotations is `DFV.C13.inplace_eq_copy` / `inplace_eq_copy_mesh_complete`.)
 -/
 namespace DFV.C12
 open DFV DFV.T
@@ -263,30 +266,46 @@ theorem mesh_turn_zero (m : Mesh) (hm : m.Inv) (hs : SubInv m) (a1 a2 : String) 
 
 /-- **Mesh (in-place form): composition.**  A turn by `k` followed by a turn by `l` about the same
 reference point is the turn by `k + l` on region, counts and every subregion; the second turn is
-always accepted.  (`bc`: the letters are swapped twice resp. once — equal for the non-periodic
-conditions, see `mesh_inverse`.) -/
+always accepted; `bc` has its letters swapped twice resp. once — and whenever `bc` passes the `bc`
+setter's check (periodic conditions included: `rotBc_compose`) the two meshes are EQUAL. -/
 theorem mesh_compose (m : Mesh) (hm : m.Inv) (hs : SubInv m) (a1 a2 : String) (k l : Int) (R : List Rat)
     (m1 m1' : Mesh) (h : stepM m (.rotate90 a1 a2 k (some R) true) = .ok (m1, m1')) :
     ∃ m2 m12, stepM m1' (.rotate90 a1 a2 l (some R) true) = .ok (m2, m2) ∧
       stepM m (.rotate90 a1 a2 (k + l) (some R) true) = .ok (m12, m12) ∧
       m2.region = m12.region ∧ m2.n = m12.n ∧ m2.subs = m12.subs ∧
-      m2.bc = rotBc (rotBc m.bc a1 a2 k) a1 a2 l ∧ m12.bc = rotBc m.bc a1 a2 (k + l) :=
-  stepM_rot_compose m hm hs a1 a2 k l R m1 m1' h
+      m2.bc = rotBc (rotBc m.bc a1 a2 k) a1 a2 l ∧ m12.bc = rotBc m.bc a1 a2 (k + l) ∧
+      (Mesh.bcOk m.region.dims m.bc = true → m2 = m12) := by
+  obtain ⟨m2, m12, h2, h12, e1, e2, e3, e4, e5⟩ := stepM_rot_compose m hm hs a1 a2 k l R m1 m1' h
+  refine ⟨m2, m12, h2, h12, e1, e2, e3, e4, e5, ?_⟩
+  intro hok
+  apply mesh_ext _ _ e1 e2 _ e3
+  rw [e4, e5]; exact rotBc_compose _ _ _ _ _ (distinct_of_bcOk _ _ hok)
 
-/-- **Mesh: a turn followed by its reverse gives back region, counts and every subregion** (and
-the whole mesh for the non-periodic boundary conditions). -/
+/-- **Mesh: a turn followed by its reverse gives back region, counts and every subregion** — and
+the WHOLE mesh whenever `bc` passes the `bc` setter's check, periodic conditions included (the
+letter swap is an involution on strings with distinct letters). -/
 theorem mesh_inverse (m : Mesh) (hm : m.Inv) (hs : SubInv m) (a1 a2 : String) (k : Int) (R : List Rat)
     (m1 m1' : Mesh) (h : stepM m (.rotate90 a1 a2 k (some R) true) = .ok (m1, m1')) :
     ∃ m2, stepM m1' (.rotate90 a1 a2 (-k) (some R) true) = .ok (m2, m2) ∧
-      m2.region = m.region ∧ m2.n = m.n ∧ m2.subs = m.subs ∧ (PlainBc m.bc → m2 = m) := by
+      m2.region = m.region ∧ m2.n = m.n ∧ m2.subs = m.subs ∧ (Mesh.bcOk m.region.dims m.bc = true → m2 = m) := by
   obtain ⟨m2, m12, h2, h12, e1, e2, e3, e4, _⟩ := stepM_rot_compose m hm hs a1 a2 k (-k) R m1 m1' h
   obtain ⟨e, _⟩ := stepM_rot_zero m hm hs a1 a2 (k + -k) (by simp) (some R) true _ m12 h12
   simp only [if_true] at e
   rw [e] at e1 e2 e3
   refine ⟨m2, h2, e1, e2, e3, ?_⟩
-  intro hp
-  rw [plainBc_rot _ _ _ _ hp, plainBc_rot _ _ _ _ hp] at e4
-  cases m2; cases m; simp only at e1 e2 e3 e4; subst e1; subst e2; subst e3; subst e4; rfl
+  intro hok
+  apply mesh_ext _ _ e1 e2 _ e3
+  rw [e4, rotBc_compose _ _ _ _ _ (distinct_of_bcOk _ _ hok)]
+  exact rotBc_even _ _ _ _ (by unfold isOdd; simp)
+
+/-- **Mesh: four quarter turns about the same reference point give back the whole mesh** — region,
+counts, `bc` (periodic conditions included), every subregion — each turn being accepted. -/
+theorem mesh_four_turns (m : Mesh) (hm : m.Inv) (hs : SubInv m) (hok : Mesh.bcOk m.region.dims m.bc = true)
+    (a1 a2 : String) (R : List Rat) (m1 m1' : Mesh) (h : stepM m (.rotate90 a1 a2 1 (some R) true) = .ok (m1, m1')) :
+    ∃ m2 m3, stepM m1' (.rotate90 a1 a2 1 (some R) true) = .ok (m2, m2) ∧
+      stepM m2 (.rotate90 a1 a2 1 (some R) true) = .ok (m3, m3) ∧
+      stepM m3 (.rotate90 a1 a2 1 (some R) true) = .ok (m, m) :=
+  stepM_rot_four m hm hs hok a1 a2 R m1 m1' h
 
 /-- **Subregions move with the cells**: an accepted mesh rotation turns the region and every
 subregion by the same corner map `rotCoord · R i1 i2 k` about the same reference point `R` (the
@@ -356,7 +375,9 @@ theorem field_compose_arrays (f : Fld) (hf : FldInv f) (a1 a2 : String) (k l : I
     g2.valid.shape = g12.valid.shape ∧ g2.data.shape = g12.data.shape ∧
     (∀ j, inRange g12.valid.shape j = true → g2.valid.get j = g12.valid.get j) ∧
     (f.nvdim ≤ 1 → ∀ j, inRange g12.data.shape j = true → g2.data.get j = g12.data.get j) ∧
-    (f.nvdim > 1 → ∃ i1 i2 c1 c2, ∀ j, inRange g12.data.shape j = true →
+    (f.nvdim > 1 → ∃ i1 i2 c1 c2, f.mesh.region.dim2index a1 = .ok i1 ∧ f.mesh.region.dim2index a2 = .ok i2 ∧
+        (f.rDim a1).bind f.vdimIndex = some c1 ∧ (f.rDim a2).bind f.vdimIndex = some c2 ∧
+        ∀ j, inRange g12.data.shape j = true →
         g2.data.get j = rotVec (rotVec ((rot90 f.data i1 i2 (k + l)).get j) c1 c2 k) c1 c2 l ∧
         g12.data.get j = rotVec ((rot90 f.data i1 i2 (k + l)).get j) c1 c2 (k + l)) ∧
     g2.nvdim = g12.nvdim ∧ g2.vdims = g12.vdims ∧ g2.vmap = g12.vmap ∧ g2.unit = g12.unit :=
@@ -364,25 +385,47 @@ theorem field_compose_arrays (f : Fld) (hf : FldInv f) (a1 a2 : String) (k l : I
 
 /-- **Mesh (copying form): composition.**  If the turn by `k`, the turn of its result by `l` and the
 turn by `k + l` about the same reference point are all accepted by the constructor, the two final
-meshes have the same region, counts and subregions — and are equal for non-periodic `bc`. -/
+meshes have the same region, counts and subregions — and are equal for every well-formed `bc`
+(`BcWf`: periodic conditions included). -/
 theorem mesh_compose_copy (m : Mesh) (hm : m.Inv) (hs : SubInv m) (a1 a2 : String) (k l : Int) (R : List Rat)
     (y1 m1 y2 m2 y12 m12 : Mesh)
     (h1 : stepM m (.rotate90 a1 a2 k (some R) false) = .ok (y1, m1))
     (h2 : stepM m1 (.rotate90 a1 a2 l (some R) false) = .ok (y2, m2))
     (h12 : stepM m (.rotate90 a1 a2 (k + l) (some R) false) = .ok (y12, m12)) :
-    m2.region = m12.region ∧ m2.n = m12.n ∧ m2.subs = m12.subs ∧ (PlainBc m.bc → m2 = m12) :=
-  stepM_rot_compose_copy m hm hs a1 a2 k l R y1 m1 y2 m2 y12 m12 h1 h2 h12
+    m2.region = m12.region ∧ m2.n = m12.n ∧ m2.subs = m12.subs ∧ (BcWf m → m2 = m12) := by
+  obtain ⟨q1, q2, q3, _⟩ := stepM_rot_compose_copy m hm hs a1 a2 k l R y1 m1 y2 m2 y12 m12 h1 h2 h12
+  refine ⟨q1, q2, q3, ?_⟩
+  intro hb
+  obtain ⟨_, _, _, m2', c2, c12, _⟩ := stepM_rot_compose_copy_accepts m hm hs hb a1 a2 k l R y1 m1 h1
+  rw [c2] at h2; rw [c12] at h12
+  injection h2 with h2; injection h2 with _ h2
+  injection h12 with h12; injection h12 with _ h12
+  rw [← h2, ← h12]
+
+/-- **Mesh (copying form): composition WITHOUT assuming acceptance.**  For a mesh satisfying the mesh
+invariant, `SubInv` and `BcWf`: once the turn by `k` is accepted, the turn of its result by `l` and
+the turn of the original by `k + l` about the same reference point are accepted too — each through
+the constructor, the `bc` setter and the subregion setter (the rotated subregions fit exactly:
+`DFV.C14.stepM_subInv`, `set_accepts_exact`) — and return the same mesh, which again satisfies the
+three invariants. -/
+theorem mesh_compose_copy_accepts (m : Mesh) (hm : m.Inv) (hs : SubInv m) (hb : BcWf m) (a1 a2 : String) (k l : Int)
+    (R : List Rat) (y1 m1 : Mesh) (h1 : stepM m (.rotate90 a1 a2 k (some R) false) = .ok (y1, m1)) :
+    m1.Inv ∧ SubInv m1 ∧ BcWf m1 ∧
+    ∃ m2, stepM m1 (.rotate90 a1 a2 l (some R) false) = .ok (m1, m2) ∧
+      stepM m (.rotate90 a1 a2 (k + l) (some R) false) = .ok (m, m2) ∧ m2.Inv ∧ SubInv m2 ∧ BcWf m2 :=
+  stepM_rot_compose_copy_accepts m hm hs hb a1 a2 k l R y1 m1 h1
 
 /-- **Field: a turn followed by its reverse gives back the field** (hence also four quarter turns,
 by `rotate_mod4` and `field_compose_arrays`): mesh region, counts and subregions (the whole mesh
-for non-periodic `bc`), labels, mapping, unit; validity and values at every cell — scalar values
-literally, vector values as `Q^(−k) Q^k v`, which is `v` whenever the two mapped components are
-distinct positions inside the value. -/
+for every well-formed `bc`, periodic included), labels, mapping, unit; validity and values at every
+cell — scalar values literally, vector values as `Q^(−k) Q^k v`, which is `v` whenever the two
+mapped components are distinct positions inside the value (always, under the value invariant:
+`field_inverse_values`). -/
 theorem field_inverse (f : Fld) (hf : FldInv f) (hs : SubInv f.mesh) (a1 a2 : String) (k : Int) (R : List Rat)
     (b b' : Bool) (x1 g1 x2 g2 : Fld)
     (h1 : rotate90F f a1 a2 k (some R) b = .ok (x1, g1)) (h2 : rotate90F g1 a1 a2 (-k) (some R) b' = .ok (x2, g2)) :
     g2.mesh.region = f.mesh.region ∧ g2.mesh.n = f.mesh.n ∧ g2.mesh.subs = f.mesh.subs ∧
-    (PlainBc f.mesh.bc → g2.mesh = f.mesh) ∧
+    (BcWf f.mesh → g2.mesh = f.mesh) ∧
     g2.nvdim = f.nvdim ∧ g2.vdims = f.vdims ∧ g2.vmap = f.vmap ∧ g2.unit = f.unit ∧
     g2.valid.shape = f.valid.shape ∧ g2.data.shape = f.data.shape ∧
     ∀ j, inRange f.mesh.n j = true →
@@ -390,13 +433,182 @@ theorem field_inverse (f : Fld) (hf : FldInv f) (hs : SubInv f.mesh) (a1 a2 : St
       (f.nvdim ≤ 1 → g2.data.get j = f.data.get j) ∧
       (f.nvdim > 1 → ∃ c1 c2, (f.rDim a1).bind f.vdimIndex = some c1 ∧ (f.rDim a2).bind f.vdimIndex = some c2 ∧
         g2.data.get j = rotVec (rotVec (f.data.get j) c1 c2 k) c1 c2 (-k) ∧
-        (c1 ≠ c2 → c1 < (f.data.get j).length → c2 < (f.data.get j).length → g2.data.get j = f.data.get j)) :=
-  rotate90F_inverse f hf hs a1 a2 k R b b' x1 g1 x2 g2 h1 h2
+        (c1 ≠ c2 → c1 < (f.data.get j).length → c2 < (f.data.get j).length → g2.data.get j = f.data.get j)) := by
+  obtain ⟨r1, r2, r3, _, r5, r6, r7, r8, r9, r10, r11⟩ := rotate90F_inverse f hf hs a1 a2 k R b b' x1 g1 x2 g2 h1 h2
+  refine ⟨r1, r2, r3, ?_, r5, r6, r7, r8, r9, r10, r11⟩
+  intro hb
+  obtain ⟨y1, m1, _, _, hm1, _, _, e1, _⟩ := rotate90F_inv f a1 a2 k (some R) b x1 g1 h1
+  obtain ⟨y2, m2, _, _, hm2, _, _, u1, _⟩ := rotate90F_inv g1 a1 a2 (-k) (some R) b' x2 g2 h2
+  rw [e1] at hm2
+  obtain ⟨_, _, _, m2', c2, c12, _⟩ := stepM_rot_compose_copy_accepts f.mesh hf.1 hs hb a1 a2 k (-k) R y1 m1 hm1
+  rw [c2] at hm2
+  injection hm2 with hm2; injection hm2 with _ hm2
+  obtain ⟨ez, _⟩ := stepM_rot_zero f.mesh hf.1 hs a1 a2 (k + -k) (by simp) (some R) false _ m2' c12
+  simp only [Bool.false_eq_true, if_false] at ez
+  rw [u1, ← hm2, ez, hb.1.1]
+
+/-- **Field: a turn followed by its reverse gives back every value and the mesh** under the value
+invariant `FldVInv` (every cell value has `nvdim` components, `nvdim` labels, mapping keys unique —
+what `Field.__init__` guarantees): the two mapped components are then distinct in-range positions
+(`mapped_components_distinct`), so vector values come back exactly, like scalar ones. -/
+theorem field_inverse_values (f : Fld) (hf : FldInv f) (hv : FldVInv f) (hs : SubInv f.mesh) (a1 a2 : String) (k : Int)
+    (R : List Rat) (b b' : Bool) (x1 g1 x2 g2 : Fld)
+    (h1 : rotate90F f a1 a2 k (some R) b = .ok (x1, g1)) (h2 : rotate90F g1 a1 a2 (-k) (some R) b' = .ok (x2, g2)) :
+    g2.valid.shape = f.valid.shape ∧ g2.data.shape = f.data.shape ∧
+    ∀ j, inRange f.mesh.n j = true → g2.valid.get j = f.valid.get j ∧ g2.data.get j = f.data.get j :=
+  rotate90F_inverse_vals f hf hv hs a1 a2 k R b b' x1 g1 x2 g2 h1 h2
+
+/-- the two components a quarter turn mixes are distinct in-range positions of every cell value:
+labels of two different axes are different keys of the mapping, hence different positions of the
+label list, which is as long as the values -/
+theorem mapped_components_distinct (f : Fld) (hv : FldVInv f) (a1 a2 : String) (hne : a1 ≠ a2) (c1 c2 : Nat)
+    (h1 : (f.rDim a1).bind f.vdimIndex = some c1) (h2 : (f.rDim a2).bind f.vdimIndex = some c2) :
+    c1 ≠ c2 ∧ c1 < f.nvdim ∧ c2 < f.nvdim :=
+  mapped_distinct f hv a1 a2 hne c1 c2 h1 h2
+
+/-- the value invariant survives every accepted field step (translate, scale, quarter turn; either
+form): rotated values keep their length, the source cell of every cell lies in the source shape -/
+theorem value_invariant_kept (f : Fld) (hf : FldInv f) (hv : FldVInv f) (op : Op) (recv ret : Fld)
+    (h : stepF f op = .ok (recv, ret)) : FldVInv recv ∧ FldVInv ret :=
+  stepF_vinv f hf hv op recv ret h
+
+/-- `np.rot90` reads inside the source: for every index `j` of the turned shape the source index
+`srcIdx j` is an index of the source shape (all `k`, all axis pairs) -/
+theorem rot90_source_in_range (sh j : List Nat) (p q : Nat) (k : Int) (hpq : p ≠ q) (hp : p < sh.length) (hq : q < sh.length)
+    (hj : inRange (if isOdd k then swapAt sh p q else sh) j = true) : inRange sh (srcIdx sh p q k j) = true :=
+  srcIdx_inRange sh j p q k hpq hp hq hj
+
+/-- **Field: composition of turns, acceptance included.**  For a field satisfying the shape invariant
+whose mesh satisfies `SubInv` and `BcWf`: once the turn by `k` about `R` is accepted (either form),
+the turn of its result by `l` and the turn of the original by `k + l` about `R` are accepted too
+(any forms) — no constructor call is assumed to succeed — and the two final fields have the same
+mesh, labels, mapping, unit, and arrays of the same shape with the same validity and values at
+every cell (scalar values literally; vector values as `Q^l Q^k v` resp. `Q^(k+l) v` of the same
+source value `v`, equal by `field_compose_values`). -/
+theorem field_compose (f : Fld) (hf : FldInv f) (hs : SubInv f.mesh) (hb : BcWf f.mesh) (a1 a2 : String) (k l : Int)
+    (R : List Rat) (b b' b'' : Bool) (x1 g1 : Fld) (h1 : rotate90F f a1 a2 k (some R) b = .ok (x1, g1)) :
+    ∃ g2 g12, rotate90F g1 a1 a2 l (some R) b' = .ok (if b' then g2 else g1, g2) ∧
+      rotate90F f a1 a2 (k + l) (some R) b'' = .ok (if b'' then g12 else f, g12) ∧
+      g2.mesh = g12.mesh ∧ g2.nvdim = g12.nvdim ∧ g2.vdims = g12.vdims ∧ g2.vmap = g12.vmap ∧ g2.unit = g12.unit ∧
+      g2.valid.shape = g12.valid.shape ∧ g2.data.shape = g12.data.shape ∧
+      (∀ j, inRange g12.valid.shape j = true → g2.valid.get j = g12.valid.get j) ∧
+      (f.nvdim ≤ 1 → ∀ j, inRange g12.data.shape j = true → g2.data.get j = g12.data.get j) ∧
+      (f.nvdim > 1 → ∃ i1 i2 c1 c2, f.mesh.region.dim2index a1 = .ok i1 ∧ f.mesh.region.dim2index a2 = .ok i2 ∧
+        (f.rDim a1).bind f.vdimIndex = some c1 ∧ (f.rDim a2).bind f.vdimIndex = some c2 ∧
+        ∀ j, inRange g12.data.shape j = true →
+          g2.data.get j = rotVec (rotVec ((rot90 f.data i1 i2 (k + l)).get j) c1 c2 k) c1 c2 l ∧
+          g12.data.get j = rotVec ((rot90 f.data i1 i2 (k + l)).get j) c1 c2 (k + l)) :=
+  rotate90F_compose_full f hf hs hb a1 a2 k l R b b' b'' x1 g1 h1
+
+/-- **Field values under composed turns**: with the value invariant, the field turned by `k` then
+`l` and the field turned by `k + l` (any reference points, any forms) carry the same value at every
+cell — vector values included. -/
+theorem field_compose_values (f : Fld) (hf : FldInv f) (hv : FldVInv f) (a1 a2 : String) (k l : Int)
+    (ref ref' ref'' : Option (List Rat)) (b b' b'' : Bool) (x1 g1 x2 g2 x12 g12 : Fld)
+    (h1 : rotate90F f a1 a2 k ref b = .ok (x1, g1)) (h2 : rotate90F g1 a1 a2 l ref' b' = .ok (x2, g2))
+    (h12 : rotate90F f a1 a2 (k + l) ref'' b'' = .ok (x12, g12)) :
+    g2.data.shape = g12.data.shape ∧ ∀ j, inRange g12.data.shape j = true → g2.data.get j = g12.data.get j :=
+  rotate90F_compose_vals f hf hv a1 a2 k l ref ref' ref'' b b' b'' x1 g1 x2 g2 x12 g12 h1 h2 h12
+
+/-! ## the `bc` letter swap -/
+
+/-- **`rotBc` keeps the `bc` check**: if `bc` passes the `bc` setter's check (one of the words, or
+distinct single letters that are dimension names) and the two axis names are dimension names, the
+turned `bc` passes it too — for every `k`, whatever the lengths of the names. -/
+theorem rotBc_keeps_bcOk (dims : List String) (bc a1 a2 : String) (k : Int) (hok : Mesh.bcOk dims bc = true)
+    (m1 : a1 ∈ dims) (m2 : a2 ∈ dims) : Mesh.bcOk dims (rotBc bc a1 a2 k) = true :=
+  rotBc_bcOk dims bc a1 a2 k hok m1 m2
+
+/-- **`rotBc` and `str.lower` commute on lower-case input**: a lower-case `bc` stays lower-case when
+the axis names — as far as they are single characters — are lower-case; so the `bc` setter
+(in-place form) and the constructor (copying form) store exactly the swapped string. -/
+theorem rotBc_lowercase (bc a1 a2 : String) (k : Int) (hl : bc.toLower = bc)
+    (l1 : a1.length = 1 → a1.toLower = a1) (l2 : a2.length = 1 → a2.toLower = a2) :
+    (rotBc bc a1 a2 k).toLower = rotBc bc a1 a2 k :=
+  rotBc_lower bc a1 a2 k hl l1 l2
+
+/-- **The letter swap composes like the turns**: `rotBc` by `k` then by `l` is `rotBc` by `k + l`
+(for `bc` one of the words or with distinct letters — in particular whenever it passes the check);
+hence it is the identity for even `k` and an involution for odd `k`. -/
+theorem rotBc_group (bc a1 a2 : String) (k l : Int) (hd : PlainBc bc ∨ Distinct bc.toList) :
+    rotBc (rotBc bc a1 a2 k) a1 a2 l = rotBc bc a1 a2 (k + l) ∧
+    (isOdd k = false → rotBc bc a1 a2 k = bc) ∧
+    (isOdd k = true → rotBc (rotBc bc a1 a2 k) a1 a2 k = bc) := by
+  refine ⟨rotBc_compose bc a1 a2 k l hd, rotBc_even bc a1 a2 k, ?_⟩
+  intro hk
+  rw [rotBc_compose bc a1 a2 k k hd]
+  exact rotBc_even _ _ _ _ (by rw [isOdd_add', hk]; rfl)
+
+/-- what the check gives: one of the words, or distinct letters -/
+theorem bcOk_distinct (dims : List String) (bc : String) (h : Mesh.bcOk dims bc = true) :
+    PlainBc bc ∨ Distinct bc.toList := distinct_of_bcOk dims bc h
+
+/-- **Periodic directions turn with the axes.**  For an odd quarter turn in the plane of two axes with
+single-character names, on a mesh whose `bc` passes the check: the turned mesh (`bc` =
+`rotBc bc a1 a2 k`, either form) is periodic along `a2` iff the original was along `a1`, along `a1`
+iff the original was along `a2`, and along every other axis iff the original was. -/
+theorem periodic_directions_turn (m m' : Mesh) (hok : Mesh.bcOk m.region.dims m.bc = true) (a1 a2 : String) (k : Int)
+    (hk : isOdd k = true) (s1 : a1.length = 1) (s2 : a2.length = 1) (hbc : m'.bc = rotBc m.bc a1 a2 k) :
+    (PeriodicAlong m' a2 ↔ PeriodicAlong m a1) ∧ (PeriodicAlong m' a1 ↔ PeriodicAlong m a2) ∧
+    ∀ d, d ≠ a1 → d ≠ a2 → (PeriodicAlong m' d ↔ PeriodicAlong m d) :=
+  periodic_turns m m' hok a1 a2 k hk s1 s2 hbc
+
+/-- **Where this is NOT true — the exact condition (open finding D57).**  `rotBc` swaps letters only
+if BOTH axis names are single characters; if one of them has a multi-character name `bc` is
+returned unchanged for every `k` (`rotBc_multichar`), and then a mesh periodic along the
+single-character axis `a1` is still periodic along `a1` after the turn, never along `a2` (a
+multi-character name cannot occur in `bc`): "periodic along `a1` after ⟺ periodic along `a2` before"
+— which `periodic_directions_turn` proves for single-character names — fails. -/
+theorem periodic_direction_lost_multichar (m m' : Mesh) (a1 a2 : String) (k : Int) (h2 : a2.length ≠ 1)
+    (hbc : m'.bc = rotBc m.bc a1 a2 k) (hper : PeriodicAlong m a1) :
+    m'.bc = m.bc ∧ PeriodicAlong m' a1 ∧ ¬ PeriodicAlong m a2 ∧ ¬ (PeriodicAlong m' a1 ↔ PeriodicAlong m a2) :=
+  periodic_not_turned_multichar m m' a1 a2 k h2 hbc hper
+
+/-- negative witness (D57) on the model: the mesh of the finding — dims `x`, `yy`, n = (4, 3),
+periodic along `x` — is well-formed, the quarter turn `x → yy` is accepted in both forms, the counts
+are swapped (axis `x` now has the 3 cells that were `yy`'s) and `bc` is still `x`. -/
+theorem d57_witness :
+    exD57.Inv ∧ SubInv exD57 ∧ BcWf exD57 ∧ PeriodicAlong exD57 "x" ∧
+    ∃ m', stepM exD57 (.rotate90 "x" "yy" 1 none true) = .ok (m', m') ∧
+      stepM exD57 (.rotate90 "x" "yy" 1 none false) = .ok (exD57, m') ∧
+      m'.n = [3, 4] ∧ m'.bc = "x" ∧ PeriodicAlong m' "x" ∧ ¬ PeriodicAlong exD57 "yy" := by
+  have hper : PeriodicAlong exD57 "x" := ⟨by decide +kernel, 'x', by decide +kernel, by decide +kernel⟩
+  have hi : exD57.Inv := mesh_inv_of_invB' exD57 (by decide +kernel)
+  have hs : SubInv exD57 := fun p hp => by cases hp
+  have hb : BcWf exD57 := bcWf_of_bcWfB exD57 (by decide +kernel)
+  refine ⟨hi, hs, hb, hper, ?_⟩
+  rcases stepM_forms_bc exD57 hi hs hb (.rotate90 "x" "yy" 1 none true) with ⟨T, _, _, _, _, _, h4, h5⟩ | ⟨⟨e, h4⟩, _⟩
+  · simp only [Op.withInplace] at h4 h5
+    have hn : T.n = [3, 4] := by
+      have := (stepM_keeps exD57 hi _ _ _ h4).2.2.1
+      rw [this]; decide +kernel
+    have hbc : T.bc = rotBc exD57.bc "x" "yy" 1 := by
+      obtain ⟨_, _, _, _, e, _⟩ := stepM_inplace_parts exD57 (.rotate90 "x" "yy" 1 none true) T T h4
+      rw [e]; rfl
+    obtain ⟨e, p1, p2, _⟩ := periodic_not_turned_multichar exD57 T "x" "yy" 1 (by decide) hbc hper
+    exact ⟨T, h4, h5, hn, by rw [e]; rfl, p1, p2⟩
+  · exfalso
+    simp only [Op.withInplace] at h4
+    have : ¬ Malformed exD57.region (.rotate90 "x" "yy" 1 none true) := by
+      have hx : exD57.region.dim2index "x" = .ok 0 := by decide +kernel
+      have hy : exD57.region.dim2index "yy" = .ok 1 := by decide +kernel
+      simp only [Malformed, not_or, not_exists]
+      refine ⟨by decide, by decide +kernel, ?_, ?_⟩
+      · intro e he; rw [hx] at he; cases he
+      · intro e he; rw [hy] at he; cases he
+    obtain ⟨x, T, hT⟩ := stepM_wellformed exD57 hi hs hb _ this
+    rw [h4] at hT; cases hT
 
 /-- non-vacuity of the object-level theorems: on the region of `exP`, the mesh `exP` (two
 subregions) and the vector field `exF`, a quarter turn x→y about the point (1, 2, 3) is accepted
 in both forms, and so are the follow-up turns the theorems speak about. -/
-example : exP.Inv ∧ SubInv exP ∧ FldInv exF ∧ PlainBc exP.bc := ⟨exP_inv, exP_subInv, exF_inv, Or.inl rfl⟩
+example : exP.Inv ∧ SubInv exP ∧ FldInv exF ∧ BcWf exP := ⟨exP_inv, exP_subInv, exF_inv, bcWf_of_plain _ (Or.inl rfl)⟩
+/-- … and the periodic mesh `exM` (bc = "x") meets the hypotheses of the `BcWf` / `bcOk` theorems; `exF` meets `FldVInv` -/
+example : exM.Inv ∧ SubInv exM ∧ BcWf exM ∧ Mesh.bcOk exM.region.dims exM.bc = true :=
+  ⟨exM_inv, exM_subInv, bcWf_of_bcWfB exM (by decide +kernel), by decide +kernel⟩
+example : FldVInv exF := ⟨fun _ _ => rfl, fun vs h => by cases h; rfl, by decide⟩
+example : (match stepM exM (.rotate90 "x" "y" 1 (some [1, 2, 3]) false) with | .ok (_, m) => (m.n, m.bc) | .error _ => ([], "")) = ([6, 4, 1], "y") := by
+  decide +kernel
 example : (match rotate90R exP.region "x" "y" 1 (some [1, 2, 3]) true with | .ok (_, r) => r.pmin | .error _ => []) = [-3, 1, 0] := by
   decide +kernel
 example : (match stepM exP (.rotate90 "x" "y" 1 (some [1, 2, 3]) true) with | .ok (_, m) => m.n | .error _ => []) = [6, 4, 1] := by
